@@ -164,6 +164,12 @@ func main() {
 		return
 	}
 
+	if b, err := os.ReadFile(filepath.Join(*verif, "reference_counts.json")); err == nil && *replay == "" {
+		ref := map[string]int{}
+		if json.Unmarshal(b, &ref) == nil {
+			r.ApplyReference(ref)
+		}
+	}
 	known, err := core.LoadKnown(filepath.Join(*verif, "known_findings.json"))
 	if err != nil {
 		fmt.Println("known_findings.json:", err)
